@@ -57,7 +57,7 @@ Theorem scored_disc_packing_has_no_overlap_computed_radius (st : pstateR) (l : l
   wf_state st -> rigid_inputs st -> p_shape NumR st = Mol l -> Forall (fun d => 0 < dr NumR d) l ->
   p_radius NumR st = shape_radius NumR fmin_ (p_shape NumR st) ->
   packed_score NumR st <> None ->
-  forall i j (n m : Z), (i < length (p_syms NumR st))%nat -> (j < length (p_syms NumR st))%nat ->
+  forall i j (n m : Z), (i < copies st)%nat -> (j < copies st)%nat ->
   ~ (i = j /\ n = 0%Z /\ m = 0%Z) ->
   forall p : R * R, ~ (in_mol (placed_mol (copy st i) l) p /\ in_mol (placed_mol (image st j n m) l) p).
 Proof.
